@@ -489,7 +489,16 @@ AnyP::Uri::parse(const HttpRequestMethod& method, const SBuf &rawUrl)
             if (t && *t == ':') {
                 *t = '\0';
                 ++t;
-                foundPort = atoi(t);
+                // port = *DIGIT; atoi() also took signs and trailing garbage
+                // and silently wrapped huge values into the valid range
+                foundPort = 0;
+                for (const char *digit = t; *digit; ++digit) {
+                    if (!xisdigit(*digit))
+                        throw TextException("malformed port in URI authority", Here());
+                    foundPort = foundPort * 10 + (*digit - '0');
+                    if (foundPort > 65535)
+                        throw TextException("huge port in URI authority", Here());
+                }
             }
         }
 
